@@ -164,6 +164,62 @@ pub fn crystal_gap(h: i32, rng: &mut Rng, norb: usize, gap: f64) -> Crystal {
     }
 }
 
+/// Like `crystal_gap`, plus a third species on the orbit of a *special* point (coordinates drawn from
+/// {0, 1/2, 1/4, 3/4, 1/3, 2/3, 1/8} and possibly one free coordinate): sites with non-trivial site
+/// symmetry, often alone in their orbit within the primitive cell.  Needed to exercise the projection
+/// of noisy special positions (C06) and stabilizers (C07).
+pub fn crystal_special(h: i32, rng: &mut Rng, gap: f64) -> Crystal {
+    let ops = conv_ops(h);
+    let nops = ops.len();
+    let special = [0.0, 0.5, 0.25, 0.75, 1.0 / 3.0, 2.0 / 3.0, 0.125];
+    for _attempt in 0..200 {
+        let mut c = crystal_unchecked(h, rng, 2);
+        let mut x = Vector3::new(*rng.pick(&special), *rng.pick(&special), *rng.pick(&special));
+        if rng.chance(0.3) {
+            let k = rng.range(0, 2) as usize;
+            x[k] = rng.uniform(0.05, 0.95);
+        }
+        let basis = c.cell.lattice.basis;
+        let mut orb: Vec<Vector3<f64>> = vec![];
+        for o in &ops {
+            let y = (o.rotation.map(|e| e as f64) * x + o.translation).map(|e| e.rem_euclid(1.0));
+            if !orb.iter().any(|z| frac_dist(&basis, z, &y) < 1e-6) {
+                orb.push(y);
+            }
+        }
+        let mut ok = true;
+        'outer: for (i, y) in orb.iter().enumerate() {
+            for z in c.cell.positions.iter() {
+                if frac_dist(&basis, y, z) < 0.45 {
+                    ok = false;
+                    break 'outer;
+                }
+            }
+            for z in orb.iter().take(i) {
+                if frac_dist(&basis, y, z) < 0.45 {
+                    ok = false;
+                    break 'outer;
+                }
+            }
+        }
+        if !ok {
+            continue;
+        }
+        for y in orb {
+            c.cell.positions.push(y);
+            c.cell.numbers.push(3);
+            c.truth.orbit_id.push(2);
+            c.truth.wyckoff_row.push(-1);
+        }
+        let n = c.cell.num_atoms();
+        c.truth.origin_atom = (0..n).collect();
+        if approx_symmetry_count(&c.cell, gap) == nops {
+            return c;
+        }
+    }
+    crystal_gap(h, rng, 2, gap)
+}
+
 /// Default gap 0.2 A (20 x the largest symprec used by the pipeline checks, 1e-2).
 pub fn crystal(h: i32, rng: &mut Rng, norb: usize) -> Crystal {
     crystal_gap(h, rng, norb, 0.2)
